@@ -128,15 +128,12 @@ def seqLen (b0 : Nat) : Nat :=
   else if b0 < 0xFE then 6
   else 0
 
-/-- payload bits of the lead byte of an `n`-byte sequence -/
-def leadBits (n b0 : Nat) : Nat :=
-  match n with
-  | 1 => b0 | 2 => b0 - 0xC0 | 3 => b0 - 0xE0 | 4 => b0 - 0xF0 | 5 => b0 - 0xF8 | _ => b0 - 0xFC
+/-- payload bits of the lead byte of an `n`-byte sequence (`ch &= 0x1f`, `0x0f`, `0x07`, `0x03`, `0x01`) -/
+def leadBits (n b0 : Nat) : Nat := if n = 1 then b0 else b0 % 2 ^ (7 - n)
 
-/-- smallest code point that needs `n` bytes (overlong test) -/
-def minFor (n : Nat) : Nat :=
-  match n with
-  | 1 => 0 | 2 => 0x80 | 3 => 0x800 | 4 => 0x10000 | 5 => 0x200000 | _ => 0x4000000
+/-- smallest code point that needs `n` bytes (glibc: `cnt > 2 && (ch >> (5 * cnt - 4)) == 0` is an overlong form;
+two-byte forms below 0x80 are excluded by the lead bytes 0xC0, 0xC1 not being lead bytes) -/
+def minFor (n : Nat) : Nat := if n > 2 then 2 ^ (5 * n - 4) else if n = 2 then 0x80 else 0
 
 inductive SeqClass where
   | char (c : Nat)     -- a complete, valid character
